@@ -81,6 +81,31 @@ def predict_case(case):
         if has_proba and not np.allclose(model.predict_proba(Xbig[idx]), full_p[idx], rtol=1e-12, atol=1e-14):
             v.append(violation("probability_depends_on_other_rows", {"rows": idx, "array": "big"}, array="big", **where))
             break
+    # the dtype of the query is not part of the sample: integer-valued points given as int64 / float32 / float64 get the same answers
+    Xint = np.round(Xnew * 2).astype(np.int64)
+    if not SPECS[name][si].get("_timestamps"):
+        ref_l = model.predict(Xint.astype(float))
+        for dt in (np.int64, np.int32, np.float32):
+            n_eval += 1
+            if not np.array_equal(model.predict(Xint.astype(dt)), ref_l):
+                v.append(violation("prediction_depends_on_the_dtype_of_the_query", {"dtype": str(np.dtype(dt)), "points": Xint}, array="int", **where))
+                break
+            if has_proba and dt != np.float32 and not np.allclose(model.predict_proba(Xint.astype(dt)), model.predict_proba(Xint.astype(float)), rtol=1e-12, atol=1e-14):
+                v.append(violation("probability_depends_on_the_dtype_of_the_query", {"dtype": str(np.dtype(dt))}, array="int", **where))
+                break
+    # history: the same object, already used for predictions, is fitted again on other data of the same width
+    if not SPECS[name][si].get("_timestamps"):
+        Xtr2 = seams.tiny_data(6, d, seed + 43) * 0.8
+        _, y2, _ = C.build(name, spec, Xtr2, seed + 1)
+        model.fit(Xtr2, y2)
+        fresh, yf, _ = C.build(name, spec, Xtr2, seed + 1)
+        fresh.fit(Xtr2, yf)
+        n_eval += 1
+        if not np.array_equal(model.predict(Xtr2), model.labels_):
+            v.append(violation("training_predictions_differ_from_labels", {"after": "refit of an object that had predicted before", "predict": model.predict(Xtr2),
+                                                                             "labels_": model.labels_}, array="refit", **where))
+        if not np.array_equal(model.predict(Xnew), fresh.predict(Xnew)):
+            v.append(violation("prediction_depends_on_earlier_fits_and_queries", {"refitted_object": model.predict(Xnew), "fresh_object": fresh.predict(Xnew)}, array="refit", **where))
     seen, vs = set(), []
     for x in v:
         if x["kind"] not in seen:
